@@ -65,8 +65,9 @@ PROPS = {
     "C07": dict(drivers=[dict(name="sweep", args=["decode-sweep", "--tier", "{tier}", "--forms", "{forms}", "--out", "{out}", "--threads", "{threads}", "--seed", "{seed}"])],
                 mc=[dict(module="MC_Decode.tla", cfg="MC_Decode.cfg", cfg_q="MC_Decode_q.cfg", workers=14, timeout=3000)], exhaustive=True,
                 rule="ALL 65,536 first instruction words (x2 register files / placements), every multi-word prefix (0100, 0140, 01F0, 01C0, 01D0, 78r0, 7Cr0-7Faa, 6A/6B abs24, 58c0, 7B5C/7BD4) x second words (table patterns, their single-bit neighbours, random; all 65,536 for the main prefixes in thorough) and third words for the 78r0 chains; outcome class, consumed length and full post state compared with the independent decode table", assumptions=COMMON_ASSUME),
-    "C14": dict(drivers=[dict(name="mes", args=["mes-cases", "--tier", "{tier}", "--out", "{out}", "--seed", "{seed}"])], mc=[dict(module="MC_Step.tla", cfg="MC_Step_C14.cfg", workers=14)],
-                rule="TRAPA #0: write with buffers in on-chip RAM and DRAM, lengths 0-4096 (boundary + random), valid UTF-8 contents incl. NUL, newline, backslash, 2/3/4-byte sequences; console bytes captured by redirecting fd 1 around the step, messages through the capture hook; set_handler for ALL vector numbers 0-255 (+ large values) x handler addresses; all other call numbers 0-255 + aliases + random", assumptions=COMMON_ASSUME),
+    "C14": dict(drivers=[dict(name="mes", args=["mes-cases", "--tier", "{tier}", "--out", "{out}", "--seed", "{seed}"]),
+                         dict(name="handler", module="TraceRun.tla", args=["handler-cases", "--tier", "{tier}", "--out", "{out}", "--seed", "{seed}"])], mc=[dict(module="MC_Step.tla", cfg="MC_Step_C14.cfg", workers=14)],
+                rule="TRAPA #0: write with buffers in on-chip RAM and DRAM, lengths 0-4096 (boundary + random), valid UTF-8 contents incl. NUL, newline, backslash, 2/3/4-byte sequences; console bytes captured by redirecting fd 1 around the step, messages through the capture hook; set_handler for ALL vector numbers 0-255 (+ large values) x handler addresses; set_handler HISTORIES on one Cpu (install, deliver, replace, deliver again, second vector, both delivered) through the real TRAPA #0 / request / try_interrupt / RTE path; all other call numbers 0-255 + aliases + random", assumptions=COMMON_ASSUME),
     "C15": dict(profiles=["release", "relchk"],
                 drivers=[dict(name="mes_release", profile="release", args=["mes-cases", "--tier", "{tier}", "--out", "{out}", "--seed", "{seed}", "--adversarial", "1"]),
                          dict(name="mes_relchk", profile="relchk", args=["mes-cases", "--tier", "{tier}", "--out", "{out}", "--seed", "{seed}", "--adversarial", "1"]),
